@@ -1,6 +1,7 @@
 """Contracts on bellows/uart.py: Gateway (C11 reset handshake, C10 failure reporting, C09 bring-up)."""
 import asyncio
 
+import bellows.ash as ash
 import bellows.types as t
 import bellows.uart as uart
 
@@ -16,9 +17,17 @@ APPLICATION = ext_class(
     connection_lost=effect(),
 )
 # the AshProtocol below the gateway
+def _link_closed(I):
+    from pyvc.values import SObj
+
+    return SObj(ash.NcpFailure, {"args": ("Transport is closed, cannot send frame",), "code": None})
+
+
 ASH_TRANSPORT = ext_class(
     "ash",
-    send_reset=effect(),
+    # AshProtocol.send_reset raises NcpFailure when the serial transport is gone or closing (its own contract in
+    # contracts/ash.py: raises.closed)
+    send_reset=effect(raises=[_link_closed]),
     close=effect(),
     send_data=ExtMethod("send_data", effect=True, is_async=True),
 )
@@ -262,11 +271,12 @@ def _(c):
     c.raises("timeout", TimeoutError)
     c.raises("cancelled", asyncio.CancelledError)
     c.raises("connection_error", OSError)  # released by connection_lost with the connection error
+    c.raises("link_closed", ash.NcpFailure)  # the RST could not be written: the serial transport is gone or closing
     # "A reset request writes a CANCEL-prefixed RST frame": one send_reset (the ASH contract of
     # send_reset gives the wire image), unless a reset is already in progress, and before anything is awaited
     c.ensures(
         "post.one_rst_unless_in_progress",
-        lambda self, fx: len([r for r in fx if r[0] == "ash.send_reset"])
+        lambda self, fx: len([r for r in fx if r[0] in ("ash.send_reset", "ash.send_reset!raise")])
         == (0 if old(self._reset_future) is not None else 1),
         on="any",
     )
